@@ -39,7 +39,7 @@ func init() {
 				}
 				return 150_000
 			}, Run: c20Generator,
-				Min: map[string]int64{"strings": 100000, "implicit_repeats": 20000, "move_demoted_to_line": 5000, "subpaths": 20000, "arcs": 20000, "no_transform": 10000, "with_transform": 50000, "relative_first_move": 10000, "transform_slice_reused": 10000, "transform_reset_to_identity": 10000, "reset_through_generator_after_settransform": 10000, "after_an_earlier_malformed_call": 5000, "transform_replaced": 10000, "pure_translation_transforms": 2000,
+				Min: map[string]int64{"strings": 100000, "implicit_repeats": 20000, "move_demoted_to_line": 5000, "subpaths": 20000, "arcs": 20000, "no_transform": 10000, "with_transform": 50000, "relative_first_move": 10000, "transform_slice_reused": 10000, "transform_reset_to_identity": 10000, "reset_through_generator_after_settransform": 10000, "after_an_earlier_malformed_call": 5000, "generator_value_copied": 10000, "transform_replaced": 10000, "pure_translation_transforms": 2000,
 					"verb_H": 1000, "verb_h": 1000, "verb_V": 1000, "verb_v": 1000, "verb_T": 1000, "verb_t": 1000, "verb_S": 1000, "verb_s": 1000, "verb_Q": 1000, "verb_q": 1000, "verb_C": 1000, "verb_c": 1000, "verb_A": 1000, "verb_a": 1000}},
 			{Name: "converter", N: func(t string) uint64 {
 				if t == "thorough" {
@@ -137,6 +137,16 @@ func c20Compare(got []rec.Op, exp []expOp) (int, string) {
 		}
 		if g.LargeArc != e.la || g.Sweep != e.sw {
 			return i, "arc-flags"
+		}
+		infinite := false
+		for j := 0; j < g.K.NArgs(); j++ {
+			infinite = infinite || math.IsInf(e.f[j], 0) || math.IsNaN(e.f[j])
+		}
+		if infinite {
+			// An operand beyond the float32 range is an infinite coordinate. What an
+			// affine map makes of an operation with an infinite operand (inf times a zero
+			// matrix entry is not a number) is not judged; that the operation is emitted is.
+			continue
 		}
 		for j := 0; j < g.K.NArgs(); j++ {
 			if math.Abs(float64(g.F[j])-e.f[j]) > c20Tol*(e.mag[j]+1) {
@@ -258,6 +268,15 @@ func c20Generator(c *run.Ctx, idx uint64) {
 				return
 			}
 		}
+	}
+	if r.Chance(1, 6) {
+		// a copy of the configured Generator value goes its own way: what is done to
+		// the copy (another transform, a path) does not reach the original
+		cp := g
+		cp.SetTransform(generate.Scale(7, 9), generate.Translate(-3, 11))
+		cp.SetDestination(&rec.Dest{})
+		cp.SetPathData("M1 2L3 4z", 0)
+		c.Count("generator_value_copied", 1)
 	}
 	resetAfterTransform := r.Chance(1, 5)
 	if resetAfterTransform {
